@@ -474,7 +474,8 @@ pub fn generate(prop: &str, seed: u64) -> Scenario {
             }
             scn
         }
-        "C15" => gen_c15(seed, r),
+        "C15" => gen_c15(seed, r, false),
+        "C15huge" => gen_c15(seed, r, true),
         _ => {
             let mut scn = base(seed, r, 300, 3, &Src::ALL_FINITE);
             scn.term = gen_any_term(r, &scn);
@@ -826,8 +827,8 @@ pub fn c15_chunks(len: usize) -> Vec<Option<Chunk>> {
     v
 }
 
-fn gen_c15(seed: u64, r: &mut Rng) -> Scenario {
-    let large = seed % 1009 == 0;
+fn gen_c15(seed: u64, r: &mut Rng, huge: bool) -> Scenario {
+    let large = huge || seed % 1009 == 0;
     let mut idx = (seed / 1) as usize;
     let len = idx % C15_LENS;
     idx /= C15_LENS;
@@ -889,7 +890,8 @@ fn gen_c15(seed: u64, r: &mut Rng) -> Scenario {
     }
     if large {
         // sampled large inputs; closures are yield points only every 2^k-th event
-        let n = *r.pick(&[1usize << 10, 1 << 10, 1 << 10, (1 << 14) + 1, (1 << 14) + 1, (1 << 14) + 1, 1 << 17, 1 << 17, (1 << 20) + 3]);
+        // the largest sampled length costs ~10 s per run: it has its own phase in the thorough tier
+        let n = if huge { (1 << 20) + 3 } else { *r.pick(&[1usize << 10, 1 << 10, 1 << 10, (1 << 14) + 1, (1 << 14) + 1, (1 << 14) + 1, 1 << 17]) };
         scn.vals = spec_vals(n, r.below(64) as u64);
         scn.quiet = if n > (1 << 15) { 12 } else { 6 };
         if let Term::Find(_) = scn.term {
